@@ -381,6 +381,72 @@ def check_convert(case, ctx):
     shape.same_shape(ctx, R, o2, lat, "uniform-weight-scaling-moves-points", "all weights multiplied by %r" % c)
 
 
+# ------------------------------------------------------------------------------------------------ a converted twin and its source
+@st.composite
+def _twin_cases(draw, tier):
+    d = draw(gen.spline(max_p=3, max_extra=3, vol_max_p=2, vol_max_extra=1, unclamped="maybe", affine_range="maybe", normalize="maybe"))
+    return {"defn": d, "pre": draw(st.sampled_from(["none", "sampled", "partial", "sampled"])), "alt": draw(st.booleans()),
+            "first": draw(st.sampled_from(["twin", "source"]))}
+
+
+def check_twin(case, ctx):
+    """convert.bspline_to_nurbs / nurbs_to_bspline of a shape that has a history (evaluated with its own sample size or on a part of its
+    domain, alternative evaluator selected, kept in its own parameter range): the result evaluates identically (parameters mapped
+    affinely when the result is normalised), samples itself with its own settings, and the two are independent under knot insertion."""
+    d = dict(case["defn"])
+    if d["rational"]:
+        d["W"] = [1.0] * len(d["P"])
+    src = build.make(d)
+    R = build.exact_from(d, src)
+    lat = shape.obj_lattice(src, limit=40)
+    kvs0 = [list(k) for k in build.kvs_of(src)]
+    pdim = len(d["degree"])
+    ctx.label("kind:" + d["kind"])
+    ctx.nt(not d.get("normalize", True), "source-in-own-range")
+    ctx.nt(case["pre"] != "none", "source-evaluated-before")
+    if case["alt"] and not d["rational"] and d["kind"] in ("curve", "surface"):
+        from geomdl import evaluators as _ev
+        src.evaluator = _ev.CurveEvaluator2() if d["kind"] == "curve" else _ev.SurfaceEvaluator2()
+        ctx.label("alternative-evaluator-on-source")
+    if case["pre"] == "sampled":
+        src.sample_size = 7 if d["kind"] == "curve" else (4 if d["kind"] == "surface" else 3)
+        _ = src.evalpts
+    elif case["pre"] == "partial" and d["kind"] == "curve":
+        a, b = kvs0[0][d["degree"][0]], kvs0[0][d["size"][0]]
+        src.sample_size = 5
+        src.evaluate(start=a + (b - a) * 0.25, stop=a + (b - a) * 0.75)
+    twin = convert.nurbs_to_bspline(src) if d["rational"] else convert.bspline_to_nurbs(src)
+    ctx.check(twin is not src and bool(twin.rational) != bool(d["rational"]), "twin-kind", "conversion returned %r for a %s source" % (type(twin).__name__, type(src).__name__))
+    kvt = [list(k) for k in build.kvs_of(twin)]
+
+    def pmap(us, kvs=kvs0, kvt=kvt):
+        # the result may be normalised: its parameter is the source's, mapped affinely from [first knot, last knot] to the result's
+        return [kt[0] + (float(u) - ks[0]) * (kt[-1] - kt[0]) / (ks[-1] - ks[0]) for u, ks, kt in zip(us, kvs, kvt)]
+    shape.same_shape(ctx, R, twin, lat, "twin-evaluates-differently", "result of the conversion", pmap=pmap)
+    if d["kind"] == "curve":
+        ep = twin.evalpts
+        ctx.check(len(ep) == twin.sample_size, "twin-sampling-not-its-own", "the converted curve reports sample_size %r and returns %d evaluated points" % (twin.sample_size, len(ep)))
+        for idx, u in ((0, kvs0[0][d["degree"][0]]), (-1, kvs0[0][d["size"][0]])):
+            r, scale = R.point([u])
+            ctx.check(ref.vec_close(ep[idx], r, scale, 1e-9), "twin-sampling-not-its-own", "evalpts[%d] of the converted curve is %r, the end of the curve is %r" % (idx, ep[idx], ref.fl(r)))
+    # a knot inserted into one of the two (middle of the widest span in the first direction) leaves the other as it was
+    p0, n0 = d["degree"][0], d["size"][0]
+    dom = sorted(set(k for k in kvs0[0] if kvs0[0][p0] <= k <= kvs0[0][n0]))
+    w_, lo = max((dom[i + 1] - dom[i], dom[i]) for i in range(len(dom) - 1))
+    u_src = lo + w_ / 2.0
+    u_twin = pmap([u_src] + [kvs0[i][0] for i in range(1, pdim)])[0]
+    order = [(twin, u_twin, "result"), (src, u_src, "source")]
+    if case["first"] == "source":
+        order.reverse()
+    for (obj, u, name), (other, _, oname) in zip(order, order[::-1]):
+        before = build.snapshot(other)
+        operations.insert_knot(obj, [u] + [None] * (pdim - 1), [1] + [0] * (pdim - 1))
+        ctx.check(build.sizes_of(obj)[0] in (n0 + 1, n0 + 2), "twin-insert-size", "insert_knot on the %s: size %r" % (name, build.sizes_of(obj)))
+        ctx.check(build.snapshot(other) == before, "conversion-result-not-independent", "inserting a knot into the %s changed the definition of the %s" % (name, oname))
+        shape.same_shape(ctx, R, src, lat, "conversion-result-not-independent", "source after a knot was inserted into the %s" % name)
+        shape.same_shape(ctx, R, twin, lat, "conversion-result-not-independent", "result after a knot was inserted into the %s" % name, pmap=pmap)
+
+
 SUBCHECKS = [
     SubCheck("views", _views_cases, check_views, quick=500, thorough=2500, shards_quick=2,
              rule="non-trivial = varied weights, or >= 3 setter calls of >= 2 kinds, or a read between two writes"),
@@ -390,4 +456,6 @@ SUBCHECKS = [
              rule="exhaustive: grid sizes 1..6 x 1..6 x {default, scalar, per-point, per-point after a read}; non-trivial = non-square or per-point weights"),
     SubCheck("convert", _convert_cases, check_convert, quick=300, thorough=1500,
              rule="non-trivial = BSpline->NURBS->BSpline round trip, or rational (varied or convertible) shape"),
+    SubCheck("twin", _twin_cases, check_twin, quick=300, thorough=1500,
+             rule="non-trivial = source kept in its own parameter range, or evaluated (fully or partly) before the conversion"),
 ]
